@@ -96,6 +96,15 @@ CHECKS.update({
             "Virtual-time measurement of retry delays after gap-free chains of consecutive failures (geometric, capped, reset by success), attempt limit, reset policy followed after out-of-range answers, buffer growth rule incl. across 1 MiB and at the maximum.", CL_NOTE, "DESIGN.md 3/C14"),
 })
 
+GRP_T = "stateful property-based testing of the real ConsumerGroup + KafkaClient + codec on a simulated cluster with a model of Kafka's group coordinator and harness-driven ghost members; Hypothesis draws rebalance histories, reply/timer orders, group error codes, held replies, network faults, processor behaviour and stop points; ddmin-shrunk JSON traces"
+GRP_NOTE = CL_NOTE + " The group coordinator model (vlib/simgroup.py) is written from Kafka's documented state machine and self-checked; if it were stricter than a real broker, situations would differ, but every verdict quotes the model's ledger."
+CHECKS.update({
+    "C16": ("GRP", GRP_T,
+            "Search over rebalance histories (ghosts joining, leaving, dying, stalling; member leader or follower; assignments moving), error codes on every group request and stop points: no consumer traffic or processor entry between JoinGroup and the successful SyncGroup, progress committed before an undisturbed rejoin, traffic only for assigned partitions from the committed position, commit identity, one join/sync in flight, heartbeats only while stable, nothing after stop completed.", GRP_NOTE, "DESIGN.md 3/C16"),
+    "C17": ("GRP", GRP_T,
+            "Liveness attacked as bounded liveness on a harness-owned clock: quiescence detection after every event (wedged = nothing outstanding), rejoin attempt within the documented backoff after each failed group request, and after faults cease stable membership + acknowledged heartbeat + consumption within a stated virtual-time horizon; non-Kafka processor errors must surface on start().", GRP_NOTE, "DESIGN.md 3/C17"),
+})
+
 NOT_YET = {
 }
 
@@ -140,6 +149,7 @@ def main():
             {"name": "CL", "path": "vlib/engines/cl.py", "serves_properties": ["C04", "C07", "C08", "C11", "C20"], "kind_free_text": "real KafkaClient on simulated time/transports against vlib/simkafka.py (stateful cluster model built on the independent protocol implementation); Hypothesis draws calls, scheduler choices and faults; traces replay without Hypothesis"},
             {"name": "PROD", "path": "vlib/engines/prod.py", "serves_properties": ["C01", "C04", "C09", "C19"], "kind_free_text": "real Producer + KafkaClient on simulated time/transports against vlib/simkafka.py; acknowledgement ledger as ground truth; reference model of batching"},
             {"name": "CONS", "path": "vlib/engines/cons.py", "serves_properties": ["C02", "C03", "C13", "C14"], "kind_free_text": "real Consumer + KafkaClient on simulated time/transports against vlib/simkafka.py (partition log, offset store, long-poll fetch); scripted processor; crash = drop consumer and client, keep the cluster"},
+            {"name": "GRP", "path": "vlib/engines/grp.py", "serves_properties": ["C16", "C17"], "kind_free_text": "real ConsumerGroup + KafkaClient on simulated time/transports against vlib/simkafka.py + vlib/simgroup.py (group coordinator model with session/rebalance timers, ghost members)"},
             {"name": "structured", "path": "checks/", "serves_properties": ["C04", "C05", "C12", "C15", "C18"], "kind_free_text": "Hypothesis @given over composite strategies with an independent protocol implementation (vlib/refproto) or foreign implementation (JVM) as oracle"},
         ],
         "checks": checks,
